@@ -663,14 +663,14 @@ func c17Recover(r *mc.Report, c c17Case, h *c17History, cut c17Cut, fs2 vfs.FS) 
 	over95 := recBefore > uint64(float64(capB)*0.95)
 	switch {
 	case !over95:
-		if !radius.Eq(storage.MaxDistance) {
+		if !radius.Eq(maxU256) {
 			viol("radius-maximum-below-95-percent", "NewStorage", fmt.Sprintf("persisted usage %d <= 95%% of capacity but the radius after opening is %s", recBefore, radius.Hex()))
 		}
 	case len(after) == 0:
 		// the usage figure said > 95% but opening pruned everything: an empty store is not
 		// "more than 95% full" under any reading, and there is no retained item to derive from
 		r.Count("over95_but_empty_after_open", 1)
-		if !radius.Eq(storage.MaxDistance) {
+		if !radius.Eq(maxU256) {
 			viol("radius-maximum-below-95-percent", "NewStorage:empty-store", fmt.Sprintf("persisted usage %d at the cut, nothing retained after opening, radius %s (every later put is refused)", recBefore, radius.Hex()))
 		}
 	default:
@@ -697,7 +697,7 @@ func c17Recover(r *mc.Report, c c17Case, h *c17History, cut c17Cut, fs2 vfs.FS) 
 			}
 		}
 	}
-	digest = fmt.Sprintf("started=%d completed=%d items=%d rec=%d over95=%v radiusMax=%v", cut.started, cut.completed, len(after), recAfter, over95, radius.Eq(storage.MaxDistance))
+	digest = fmt.Sprintf("started=%d completed=%d items=%d rec=%d over95=%v radiusMax=%v", cut.started, cut.completed, len(after), recAfter, over95, radius.Eq(maxU256))
 	return digest
 }
 
